@@ -88,12 +88,16 @@ def having_scen(rng, preds, pats, texts=None):
     like = {"t": "like", "a": ls, "pat": list(rng.choice(pats)), "neg": False}
     notnull = {"t": "isnull", "a": ls, "neg": True}
     isnull = {"t": "isnull", "a": ls, "neg": False}
+    cnt2 = {"t": "cmp", "op": ">=", "a": col("c"), "b": num(2)}
     having = {"like": like, "notnull": notnull, "isnull": isnull, "like_and_notnull": {"t": "and", "a": like, "b": notnull},
-              "notnull_and_like": {"t": "and", "a": notnull, "b": like}}[kind]
+              "notnull_and_like": {"t": "and", "a": notnull, "b": like},
+              "like_and_count": {"t": "and", "a": like, "b": cnt2}, "count_and_like": {"t": "and", "a": cnt2, "b": like}}[kind]
+    # an aggregate CALL written in HAVING (here the selected count(*)) next to a quoted literal, before and after it
+    hsql = {"like_and_count": sql(like) + " AND count(*) >= 2", "count_and_like": "count(*) >= 2 AND " + sql(like)}.get(kind) or sql(having)
     sel = [{"al": "ls", "e": col("lv_s")}, {"al": "c", "e": col("cnt")}]
     meta = {"fam": "postagg", "n": n, "aggdefs": [{"key": "lv_s", "fn": "last_value", "arg": "s"}, {"key": "cnt", "fn": "count_star", "arg": "s"}],
             "sel": sel, "gsel": 1, "order": [], "limit": 0, "distinct": 0, "having": having}
-    txt = "SELECT g, last_value(s) AS ls, count(*) AS c FROM stream GROUP BY g, TumblingWindow('10s') HAVING %s WITH (TIMESTAMP='ts', TIMEUNIT='ms')" % sql(having)
+    txt = "SELECT g, last_value(s) AS ls, count(*) AS c FROM stream GROUP BY g, TumblingWindow('10s') HAVING %s WITH (TIMESTAMP='ts', TIMEUNIT='ms')" % hsql
     return {"meta": meta, "sql": txt, "rows": rows}
 
 
@@ -188,6 +192,8 @@ def run(tier):
     # text that looks like an aggregate call INSIDE the pattern literal of a HAVING clause is a run of characters like any other
     hav += [having_scen(rng, ["like", "like_and_notnull", "notnull_and_like"], ["%max(x)%", "%count(*)%", "max(s)", "%avg(v)", "sum(%"],
                         texts=["a max(x) b", "max(s)", "count(*)", "x avg(v)", "ab", "sum(v)", "max(x)"]) for _ in range(40 if quick else 1000)]
+    hav += [having_scen(rng, ["like_and_count", "count_and_like"], ["a%", "%b", "%", "%a%", "a%b", "%max(x)%", "x y z%"],
+                        texts=["ab", "a", "b", "x y z", "a max(x) b", "aab"]) for _ in range(60 if quick else 1500)]
     seqfam.run_scenarios(res, hav, "TracePostAgg", tag="having")
     scen += hav
     agc = [aggcase_scen(rng, ["a%", "A%", "%b", "%B", "a_", "ab", "Ab", "%a%", "%"], ["ab", "Ab", "AB", "b", "aB", "xb", "", "a"]) for _ in range(120 if quick else 4000)]
